@@ -31,3 +31,28 @@ func TestFMBasic(t *testing.T) {
 		t.Fatalf("c3")
 	}
 }
+
+func TestFMDivChain(t *testing.T) {
+	u := newUniverse()
+	ln := u.sym("len", 0, maxLen)
+	f := &Frame{an: &Analysis{u: u}}
+	d8 := f.divSym(affSym(ln), 8)
+	cnt := u.sym("cnt", -bigNum, bigNum)
+	dc := f.divSym(affSym(cnt), 65536)
+	t3 := u.sym("t3", 0, 65535)
+	c := Conj{
+		atomEQ(affSym(cnt), affSym(d8)),
+		atomLE(affSym(ln), affConst(1968)),
+		atomNE(affSym(ln), affConst(0)),
+		atomEQ(affSym(t3), affSym(cnt).sub(affSym(dc).scale(65536)).addc(7)),
+	}
+	if !c.entails(atomLE(affSym(cnt), affConst(246))) {
+		t.Fatalf("cnt <= 246 not proven")
+	}
+	if !c.entails(atomGE(affSym(dc), affConst(0))) {
+		t.Fatalf("dc >= 0 not proven")
+	}
+	if !c.entails(atomLE(affSym(t3).addc(2), affConst(65535))) {
+		t.Fatalf("t3+2 <= 65535 not proven; gaveup=%d", fmStats.gaveUp)
+	}
+}
